@@ -388,6 +388,19 @@ class Facts:
                         return c, f
         return None, None
 
+    def role_field(self, cls, pred, role, inherited=False):
+        """Name of the one data member of cls whose record satisfies pred: private members are found by what they
+        are (their type), never by what they happen to be called."""
+        r = self.need_rec(cls)
+        fields = list(r['fields'])
+        if inherited:
+            for a in self.ancestors(cls):
+                fields += self.rec.get(a, {}).get('fields', [])
+        hits = [fl['name'] for fl in fields if pred(fl)]
+        if len(hits) != 1:
+            raise AnalysisBroken(f'{cls}: {len(hits)} data members play the role `{role}` ({hits}); exactly one expected')
+        return hits[0]
+
     def loc(self, obj):
         return obj.get('loc', '?')
 
